@@ -168,12 +168,21 @@ func connectPair(tr realTran, i int, a, b mangos.Socket) error {
 	return d.Dial()
 }
 
+type heldSlice struct {
+	b []byte
+	d string
+}
+
 // TestLinkReal: C01 - byte-identical, whole, in order over every transport and pattern.
 func TestLinkReal(t *testing.T) {
 	out := newOut(t, "link")
 	defer out.Close()
 	rng := rand.New(rand.NewSource(seed()))
 	k := 0
+	// an installed (empty) ledger makes the library overwrite every body buffer at its last Free:
+	// anybody still reading a released message sees garbage instead of plausible data
+	mangos.VerifSetMsgLedger(func(mangos.VerifMsgEvent) {})
+	defer mangos.VerifSetMsgLedger(nil)
 	for ti, tr := range realTrans() {
 		for pi, lp := range linkPats() {
 			if !thorough() && (ti+pi)%2 == 1 && tr.name != "tcp" && tr.name != "inproc" {
@@ -217,6 +226,13 @@ func TestLinkReal(t *testing.T) {
 				}
 				time.Sleep(30 * time.Millisecond) // let both sides attach (pub/bus/star send is best effort)
 				r.Emit("link", "tran", tr.name, "pat", lp.name, "limit", limit)
+				var held []heldSlice
+				defer func() {
+					// slices handed out by Recv, looked at again after all the later traffic
+					for _, h := range held {
+						r.Emit("lhold", "len", len(h.b), "d0", h.d, "d", digest(h.b))
+					}
+				}()
 				for si, n := range linkSizes(rng, limit, lp.hdr) {
 					body := payload(n, si+k*1000)
 					// the size hint is only a hint: messages grown past it must arrive intact too
@@ -225,6 +241,22 @@ func TestLinkReal(t *testing.T) {
 					m.Body = append(m.Body, body...)
 					m.Header = append(m.Header, lp.rawHdr...)
 					r.Emit("lsend", "dir", "ab", "len", n, "d", digest(body))
+					if !lp.echo && lp.rawHdr == nil && si%2 == 1 {
+						// the byte-slice API: what Recv returns is the application's to keep
+						m.Free()
+						if err := a.Send(body); err != nil {
+							r.Emit("lerr", "dir", "ab", "op", "send", "r", err)
+							return
+						}
+						gb, err := b.Recv()
+						if err != nil {
+							r.Emit("lerr", "dir", "ab", "op", "recv", "r", err)
+							return
+						}
+						r.Emit("lrecv", "dir", "ab", "len", len(gb), "d", digest(gb))
+						held = append(held, heldSlice{gb, digest(gb)})
+						continue
+					}
 					if err := a.SendMsg(m); err != nil {
 						r.Emit("lerr", "dir", "ab", "op", "send", "r", err)
 						return
@@ -608,7 +640,7 @@ func TestWireReal(t *testing.T) {
 				}
 			}()
 			offered := make(chan []string, 4)
-			frames := make(chan []byte, 4)
+			frames := make(chan []byte, 16)
 			up := websocket.Upgrader{Subprotocols: []string{"rep.sp.nanomsg.org"}, CheckOrigin: func(*http.Request) bool { return true }}
 			nl, err := net.Listen("tcp", "127.0.0.1:0")
 			if err != nil {
@@ -648,16 +680,22 @@ func TestWireReal(t *testing.T) {
 			case <-time.After(3 * time.Second):
 				r.Emit("wsoffer", "subs", "<none>", "peer", "rep")
 			}
-			m := mangos.NewMessage(8)
-			m.Header = append(m.Header, 0x80, 0, 0, 1)
-			m.Body = append(m.Body, "abcd"...)
-			_ = s.SendMsg(m)
-			select {
-			case f := <-frames:
-				want := append([]byte{0x80, 0, 0, 1}, "abcd"...)
-				r.Emit("wsframe", "binary", f != nil, "len", len(f), "d", digest(f), "want", digest(want), "r", "ok")
-			case <-time.After(3 * time.Second):
-				r.Emit("wsframe", "binary", false, "len", -1, "d", "", "want", "x", "r", "timeout")
+			// every header length x body length (incl. none of either): one binary frame, header then body
+			for hi, hdr := range [][]byte{{0x80, 0, 0, 1}, {0, 0, 0, 7, 0x80, 0, 0, 2}} {
+				for _, n := range []int{4, 0, 300, 1} {
+					body := payload(n, n+hi)
+					m := mangos.NewMessage(8)
+					m.Header = append(m.Header, hdr...)
+					m.Body = append(m.Body, body...)
+					_ = s.SendMsg(m)
+					select {
+					case f := <-frames:
+						want := append(append([]byte{}, hdr...), body...)
+						r.Emit("wsframe", "binary", f != nil, "len", len(f), "d", digest(f), "want", digest(want), "r", "ok")
+					case <-time.After(3 * time.Second):
+						r.Emit("wsframe", "binary", false, "len", -1, "d", "", "want", "x", "r", "timeout")
+					}
+				}
 			}
 		}()
 		out.Add("wirereal-wsclient", rec.Ev{"kind": "ws", "ipc": false, "self": 48, "maxrx": 0, "stream": []int{}, "closes": false},
